@@ -75,9 +75,10 @@ fn eval(w: &mut World, p: &P19, rec: &mut Rec) -> bool {
     let lp = w.lp("o.g");
     let supply = w.supply(&lp);
     rec.count("c19_mint_d_checks");
+    let d_floor = &d_exact / &unit;
     let diff = BigInt::from(supply) * &unit - &d_exact;
-    if abs(&diff) > BigInt::from(2) * &unit + &unit {
-        // |D_used - floor(D*)| > 2 (one extra unit for the floor of the exact root itself)
+    if abs(&(BigInt::from(supply) - &d_floor)) > BigInt::from(2) {
+        // |D_used - floor(D*)| > 2 smallest units
         rec.viol_kf("C19_mint_d_inexact", format!("{state} supply={supply}"), format!("{state}: first deposit minted a total supply (= D used) of {supply}, exact D is {} (difference {} units of 10^-{K})", &d_exact / &unit, diff));
     }
     // ---- quotes
